@@ -163,9 +163,10 @@ theorem no_fault_queries {n : Nat} {regs : Nat → List Nat} {s : St} (r : Reach
   queries_total (reach_good r).inv (valid_facts hv).1 (valid_facts hw).1 ha hb hza hzb k needle skip c
 
 /- OPEN: the remaining read-only calls
-   startsWith / endsWith, find(char, start), find(str, start), findOneOf(chars, start), toBool, hash: their
-   absence of faults and (except startsWith) their results are not stated here; they are compared with the
-   Python reference on every small argument by the correspondence run (ASan, exactly sized buffers). -/
+   toBool, hash, equalsIgnoreCase, the n-limited compareIgnoreCase: neither their results nor their absence
+   of faults are stated here; startsWith / endsWith and the start-index searches have result theorems below
+   but no fault theorem.  All of them are compared with the Python reference on every small argument by the
+   correspondence run (ASan, exactly sized buffers). -/
 
 /-! ### query lemmas: the answers are the libc reference functions applied to the values -/
 
@@ -277,6 +278,36 @@ theorem equal_startsWith_spec {n : Nat} {regs : Nat → List Nat} {s : St} (r : 
     (∀ res, equalS s v w = some res → (res = true ↔ a = b)) ∧
     (∀ res, startsWith s v w = some res → (res = true ↔ b <+: a)) :=
   ⟨fun _ e => equalS_eq (reach_good r).inv e ha hb, fun _ e => startsWith_eq (reach_good r).inv e ha hb⟩
+
+/-- `endsWith` decides the suffix relation of the values; `findLastOf(chars)` returns the last char of the
+    value that is in the set -/
+theorem endsWith_findLastOf_spec {n : Nat} {regs : Nat → List Nat} {s : St} (r : Reach n regs s) {v w : Nat}
+    (hv : validVar s v = true) {a b : List Nat} (ha : allSome (absVar s v) = some a)
+    (hb : allSome (absVar s w) = some b) (hza : ∀ x ∈ a, x ≠ 0) :
+    (∀ res, endsWith s v w = some res → (res = true ↔ b <:+ a)) ∧
+    (∀ chars s' res, findLastOf s v chars = some (s', res) → LastOf a chars res ∧ ∀ u, absVar s' u = absVar s u) :=
+  ⟨fun _ e => endsWith_eq (reach_good r).inv e ha hb,
+   fun _ _ _ e => findLastOf_eq (reach_good r).inv (valid_facts hv).1 e ha hza⟩
+
+/-- `find(str, start)`, `findOneOf(chars, start)`, `find(char, start)`: nothing is found at or behind the end,
+    otherwise the search runs over the rest of the value from `start` and the offset is counted from the
+    beginning (`find(char, start)` with the NUL char finds the terminator) -/
+theorem findFrom_spec {n : Nat} {regs : Nat → List Nat} {s : St} (r : Reach n regs s) {v : Nat}
+    (hv : validVar s v = true) {c : List Nat} (hc : allSome (absVar s v) = some c) (hz : 0 ∉ c)
+    (needle : List Nat) (ch st : Nat) :
+    (∀ s' res, findSFrom s v needle st = some (s', res) →
+      res = (if st ≥ c.length then none else (strstrL (c.drop st) needle).map (· + st)) ∧ ∀ w, absVar s' w = absVar s w) ∧
+    (∀ s' res, findOneOfFrom s v needle st = some (s', res) →
+      res = (if st ≥ c.length then none else (strpbrkL (c.drop st) needle).map (· + st)) ∧ ∀ w, absVar s' w = absVar s w) ∧
+    (∀ s' res, findCFrom s v ch st = some (s', res) →
+      res = (if st ≥ c.length then none else (strchrL (c.drop st) ch).map (· + st)) ∧ ∀ w, absVar s' w = absVar s w) := by
+  have g := (reach_good r).inv
+  have V := valid_facts hv
+  obtain ⟨a, b⟩ := findFrom_eq g V.1 hc hz needle st
+  refine ⟨a, b, ?_⟩
+  intro s' res e
+  obtain ⟨S, hr⟩ := findCFrom_eq g V.1 hc hz e
+  exact ⟨hr, S.abs⟩
 
 /-! ### non-vacuity: a concrete history with literal and unterminated attached memory, lazy copies,
     self arguments, temporaries and C-string based calls meets every hypothesis used above -/
